@@ -333,6 +333,11 @@ pub fn targeted() -> Vec<String> {
         v.push(format!("{}{t}", "\u{feff}"));
         v.push(format!("{}\n{t}", "\u{feff}"));
     }
+    // locale values that are no codes: words in scripts with 2-, 3- and 4-byte letters, of every length around the cut points
+    for t in ["español", "русский", "ελληνικά", "日本語", "fr_ça", "ñ", "añ", "aañ", "aaañ", "éé_éé", "e_é", "en_é", "en_Éa", "éaaa", "aéaa", "aaéa", "aaaé", "é_aa", "𝒆𝒏", "en_𝑼𝑺", "fil_PH", "en-GB", "ça_va-é"] {
+        v.push(format!("---\nlocale: {t}\n---\nBatir los @huevos{{3}}.\n"));
+        v.push(format!(">> locale: {t}\nx"));
+    }
     // empty servings list; more than 7 labels in one diagnostic (one label per `>>` entry)
     v.push("---\nservings: []\n---\nMix @flour{200%g} and @water{1%l}.\n".to_string());
     v.push(">> servings: \n@a{1}".to_string());
